@@ -1,17 +1,27 @@
-import J5V.Walker.Walk
+import J5V.Walker.ParserLink
+import J5V.Walker.WalkCex
+import J5V.Walker.TermCheck
 import J5V.Walker.Facts
-import J5V.Walker.Stub
-import J5V.Walker.Dump
 /-!
 # C07 (walker part) — the schema-driven BCL walker `j5s text → SourceFile`
 
-Model: `J5V.Walker` (`walkSchema env body msg`; `env` = block spec + schema of containers and scalars, here
-`j5Env` converted from the regenerated facts `Generated/WalkerspecFacts`, `Generated/WalkerschemaFacts`);
-tie to the code: stream `walker.parse` (PROTOCOL-walker.md). Only property theorems, non-vacuity examples and
-obligations over regenerated facts live here.
+Model: `J5V.Walker` (`walkSchema env body msg : Res Node`, a result `.ok tree`, `.err e` or `.panic why`;
+`env` = block spec + schema of containers and scalars, here `j5Env` converted from the regenerated facts
+`Generated/WalkerspecFacts`, `Generated/WalkerschemaFacts`; `stub j5Env filename` = `FileStub(filename)`);
+`body` = the statements of the BCL parser model `J5V.Bcl.parseFile cls src ff` (C11). Tie to the code:
+stream `walker.parse` (PROTOCOL-walker.md). Only property theorems, non-vacuity examples and obligations over
+regenerated facts live here; lemmas: `J5V/Walker/*Proofs.lean`, `WalkMain.lean`, `WalkJ5.lean`,
+`ParserLink.lean`, `TermCheck.lean`.
+
+Every source-level statement holds for **every** classifier `cls`, **every** rune string `src` (Go strings
+reach the lexer through `[]rune(data)`), both parser modes `ff` and **every** file name (arbitrary bytes);
+there is no bound on length or nesting.
+
+`InFileLC src p` is "`p.line < lineCount` and `p.col ≤` rune length of that line" over
+`strings.Split(src, "\n")` (the EOL / EOF column is allowed) — `J5V/Bcl/PosLines.lean`.
 -/
 namespace J5V.Props.C07Walker
-open J5V.Walker
+open J5V.Bcl J5V.Walker
 
 /-! ## Obligations over the facts regenerated from the current source -/
 
@@ -19,5 +29,169 @@ open J5V.Walker
 (`internal/j5s/j5parse/schema.go`), no unknown field type / unresolved name in the j5 schema closure of
 `SourceFile` -/
 theorem C07W_src_facts_complete : factsProblems = [] := by decide
+
+/-- **the spec the code ships is well formed** (`Env.WF`, decidable, evaluated by the kernel on the
+regenerated facts; the six conjuncts of `J5V/Walker/WF.lean`): `closed` — every object / oneof / enum a
+property type names is in the schema table; `typesOK` — no property type is unknown, an object reference
+resolves to an object schema and a oneof reference to a oneof schema, array / map items are object / oneof
+/ scalar / enum / any; `rootOK` — the root schema is in the table and is an object; `stubOK` — the
+properties `FileStub` presets (`path`, `package.name`, `sourceLocations`) have types that admit the
+preset; `splitOK` — every path of every scalar split of `J5SchemaSpec` is non-empty and, followed from the
+block's own schema through aliases and properties, ends at a scalar field; `mapNamesFresh` — the name
+`<schema>.<property>` of a map container is neither a schema name nor the name of a block of
+`J5SchemaSpec`. A change of `J5SchemaSpec` or of the j5 schema that breaks one of these breaks this theorem
+— and with it every source-level theorem below, which all rest on it. (It is also the non-vacuity witness
+for the hypothesis `env.WF` of the general forms.) -/
+theorem C07W_src_spec_wf : j5Env.WF = true := j5Env_WF
+
+/-! ## No panic -/
+
+/-- **General form.** For any environment that is well formed (`env.WF`), any well-typed message `msg`
+(`TreeOK`) and any statement list in which every block type reference has at least one ident
+(`bodyTypesOK`, decidable), the walk returns `.ok` or `.err`: none of the model's panic sites (nil scope
+root, index out of range, type assertion on a node of the wrong kind, exhausted fuel) is reached. -/
+theorem C07W_walk_no_panic {env : Env} (hwf : env.WF = true) {msg : Node} (hmsg : TreeOK env msg)
+    (body : List Statement) (hb : bodyTypesOK body = true) (why : String) :
+    walkSchema env body msg ≠ .panic why :=
+  J5V.Walker.C07W_walk_no_panic hwf hmsg body hb why
+
+/-- **Source-level form for j5s files.** Whatever the source text, parser mode and file name: if the BCL
+parser returns a tree, walking its statements over the file stub with the j5 spec never panics. The
+hypothesis `bodyTypesOK` is discharged by the parser (`parseFile_bodyTypesOK`), `WF` by
+`C07W_src_spec_wf`, `TreeOK` of the stub by `j5_stub_treeOK`. -/
+theorem C07W_parse_walk_no_panic (cls : Cls) (src : List Rune) (ff : Bool) (f : File) (filename : Str)
+    (h : parseFile cls src ff = .tree f) (why : String) :
+    walkSchema j5Env f.body (stub j5Env filename) ≠ .panic why :=
+  parse_walk_no_panic cls src ff f filename h why
+
+/-- the parser never builds a block whose type reference is empty (both modes): every block header of the
+tree is the header of a header fragment, and `popReference` pops an ident before `newReference` -/
+theorem C07W_parse_types_ok (cls : Cls) (src : List Rune) (ff : Bool) (f : File)
+    (h : parseFile cls src ff = .tree f) : bodyTypesOK f.body = true :=
+  parseFile_bodyTypesOK cls src ff f h
+
+/-- **The hypothesis `bodyTypesOK` is necessary for the MODEL** (checked counterexample, evaluated by the
+kernel): on the statement list `cexBody` = one block whose type reference has NO ident, with a description
+line in its body, the walk with the well-formed `j5Env` over the well-typed stub panics (`buildScope …
+.resetScope` with an empty path returns the tail scope, whose root is nil; `setDescription` dereferences
+it). Such a statement list cannot come from the parser: Go's `NewReference` indexes `idents[0]`, so the
+real code would have panicked already when building the reference, and the parser model pops an ident first
+(`C07W_parse_types_ok`). The source-level theorems therefore carry no such hypothesis. -/
+theorem C07W_walk_counterexample :
+    bodyTypesOK cexBody = false ∧ (walkSchema j5Env cexBody (stub j5Env [97])).isPanic = true :=
+  ⟨rfl, walkSchema_panics_on_empty_type_reference⟩
+
+/-! ## Error positions -/
+
+/-- **General form.** An error of the walk carries a position (a span), and both ends of the span are
+positions of the statements: `BodyPos body p` = `p` belongs to every set of positions that contains `0:0`
+(the span of the synthetic `true` of a `!` / `?` mark) and both ends of every span stored in the statements
+(statement, key / type idents, end of the type reference, tags and qualifiers with their reference idents,
+values incl. array elements, descriptions). The side condition excludes the one error raised BEFORE the
+walk, when the spec of the root schema cannot be built — a property of `env` alone. -/
+theorem C07W_error_positions {env : Env} (hwf : env.WF = true) {msg : Node} (hmsg : TreeOK env msg)
+    (body : List Statement) (hb : bodyTypesOK body = true) {e : WErr}
+    (h : walkSchema env body msg = .err e) (hroot : newRootSchemaWalker env ≠ .err e) :
+    ∃ sp, e.pos = some sp ∧ BodyPos body sp.start ∧ BodyPos body sp.end_ :=
+  C07W_walk_error_position hwf hmsg body hb h hroot
+
+/-- for the j5 spec the side condition of the general form holds: the spec of the root schema builds -/
+theorem C07W_j5_root_builds (e : WErr) : newRootSchemaWalker j5Env ≠ .err e := j5Env_root_walker e
+
+/-- **Source-level form for j5s files.** Every error the walk of a parsed file returns carries a position,
+and both ends of it lie inside the file: line `<` number of lines of `src`, column `≤` rune length of that
+line (`InFileLC`; lines as `strings.Split(src, "\n")`). (C11 gives the same for the parser's own
+diagnostics.) -/
+theorem C07W_parse_error_positions (cls : Cls) (src : List Rune) (ff : Bool) (f : File) (filename : Str)
+    (h : parseFile cls src ff = .tree f) {e : WErr}
+    (he : walkSchema j5Env f.body (stub j5Env filename) = .err e) :
+    ∃ sp, e.pos = some sp ∧ InFileLC src sp.start ∧ InFileLC src sp.end_ :=
+  parse_walk_error_position cls src ff f filename h he
+
+/-- every position of the statements of a parsed file is a position of the file -/
+theorem C07W_parse_body_positions (cls : Cls) (src : List Rune) (ff : Bool) (f : File)
+    (h : parseFile cls src ff = .tree f) : ∀ p, BodyPos f.body p → InFileLC src p :=
+  parseFile_bodyPos cls src ff f h
+
+/-! ## Successful walks -/
+
+/-- **General form.** A successful walk returns a well-typed tree (`TreeOK`: every node has the shape its
+schema property prescribes) that extends the message it started from (`Ext`, "the tree only grows": every
+typed address that was valid in `msg` is valid in the result, and a container found there is still a
+container of the same shape — message, list or map). -/
+theorem C07W_walk_ok {env : Env} (hwf : env.WF = true) {msg tree : Node} (hmsg : TreeOK env msg)
+    (body : List Statement) (hb : bodyTypesOK body = true) (h : walkSchema env body msg = .ok tree) :
+    TreeOK env tree ∧ Ext env msg tree :=
+  J5V.Walker.C07W_walk_ok hwf hmsg body hb h
+
+/-- **Source-level form for j5s files**: the result of walking a parsed file is a well-typed `SourceFile`
+that extends the stub (path, package name, empty source locations). -/
+theorem C07W_parse_walk_ok (cls : Cls) (src : List Rune) (ff : Bool) (f : File) (filename : Str)
+    (h : parseFile cls src ff = .tree f) {tree : Node}
+    (hw : walkSchema j5Env f.body (stub j5Env filename) = .ok tree) :
+    TreeOK j5Env tree ∧ Ext j5Env (stub j5Env filename) tree :=
+  parse_walk_ok cls src ff f filename h hw
+
+/-! ## Termination
+
+What is proved, exactly. `walkSchema` is a Lean function, so it returns on every input; the question is
+whether it can return "I gave up". Every function of the model is a STRUCTURAL recursion (over the
+statements, the values, the lists of the spec): accepted by Lean's structural-recursion checker, and
+`J5V/Walker/TermCheck.lean` fails the build if a project function reachable from `walkSchema` / `stub` is
+defined by well-founded recursion, `partial`, `unsafe` or `opaque`. The one recursion that follows the
+SPEC instead of the input — `setAttribute` ⇄ `setContainerFromScalar`: a scalar assigned to a container
+is split over the container's own attributes, which may be containers with a split again — is structural
+on a fuel argument, started at `fuelOf env = 2·|given| + |schemas| + 8`, and returns `.panic "fuel"` at
+zero (the Go code would recurse until the stack overflows on a cyclic spec). The theorem: under `env.WF`
+(which bounds the nesting of scalar splits) the fuel is never exhausted. -/
+
+/-- **General form**: for a well-formed environment the spec-following recursion never runs out of fuel,
+whatever the statements (with `bodyTypesOK`) and the well-typed message. Corollary of
+`C07W_walk_no_panic`. -/
+theorem C07W_terminates {env : Env} (hwf : env.WF = true) {msg : Node} (hmsg : TreeOK env msg)
+    (body : List Statement) (hb : bodyTypesOK body = true) : walkSchema env body msg ≠ .panic "fuel" :=
+  J5V.Walker.C07W_walk_no_panic hwf hmsg body hb "fuel"
+
+/-- **Source-level form for j5s files**: walking any parsed file with the j5 spec never exhausts the
+fuel. -/
+theorem C07W_parse_walk_terminates (cls : Cls) (src : List Rune) (ff : Bool) (f : File) (filename : Str)
+    (h : parseFile cls src ff = .tree f) : walkSchema j5Env f.body (stub j5Env filename) ≠ .panic "fuel" :=
+  parse_walk_no_panic cls src ff f filename h "fuel"
+
+/-! ## Parse + walk, combined -/
+
+/-- **From text to `SourceFile`, total.** For every classifier, every rune string `src`, either parser mode
+and every file name: `ParseFile` returns a non-empty list of diagnostics, or a tree; and for a tree the
+walk over the file stub returns either `.ok tree'` with `tree'` a well-typed `SourceFile` extending the
+stub, or `.err e` where `e` has a position with both ends inside `src` — never `.panic` (no nil
+dereference, index or type-assertion failure, no exhausted fuel). -/
+theorem C07W_parse_walk_total (cls : Cls) (src : List Rune) (ff : Bool) (filename : Str) :
+    (∃ es, es ≠ [] ∧ parseFile cls src ff = .errors es) ∨
+    (∃ f, parseFile cls src ff = .tree f ∧
+      ((∃ tree, walkSchema j5Env f.body (stub j5Env filename) = .ok tree ∧
+          TreeOK j5Env tree ∧ Ext j5Env (stub j5Env filename) tree) ∨
+       (∃ e sp, walkSchema j5Env f.body (stub j5Env filename) = .err e ∧
+          e.pos = some sp ∧ InFileLC src sp.start ∧ InFileLC src sp.end_))) :=
+  parse_walk_total cls src ff filename
+
+/-! ## Non-vacuity (evaluated by the kernel on `asciiCls`, file name `a`)
+
+`C07W_src_spec_wf` is the witness for `env.WF`; `j5_stub_treeOK` for `TreeOK`. -/
+
+/-- a small j5s file parses to a tree and its walk succeeds (hypotheses and the `.ok` branch are
+inhabited) -/
+example : ∃ f, parseFile asciiCls (ofAscii "object Foo {\n field a ! string\n}\n") true = .tree f ∧
+    (walkSchema j5Env f.body (stub j5Env [97])).isOk = true :=
+  tree_of_match (by rw [j5Env_nf]; decide +kernel)
+
+/-- a file the parser accepts and the walk rejects: `object` has no block `required`; the error sits on
+line 1, columns 1–8 (the `.err` branch is inhabited, with a position) -/
+example : ∃ f, parseFile asciiCls (ofAscii "object Foo {\n required {\n }\n}\n") true = .tree f ∧
+    (walkSchema j5Env f.body (stub j5Env [97])).errPos = some ⟨⟨1, 1⟩, ⟨1, 8⟩⟩ :=
+  tree_of_match (by rw [j5Env_nf]; decide +kernel)
+
+/-- … and that position is inside the file -/
+example : InFileLC (ofAscii "object Foo {\n required {\n }\n}\n") ⟨1, 1⟩ ∧
+    InFileLC (ofAscii "object Foo {\n required {\n }\n}\n") ⟨1, 8⟩ := by decide +kernel
 
 end J5V.Props.C07Walker
